@@ -309,6 +309,11 @@ func runC03(s c03Scen, c *ev.Case) *ev.Violation {
 				if err := waitUID(u); err != nil {
 					return harnessErr("%v", err)
 				}
+				// with a window of one, message u only arrives after every earlier acknowledgement has been processed:
+				// a confirmed point (keeps the post-hoc oracle linear)
+				r.mu.Lock()
+				r.log(c03Event{Kind: "barrier"})
+				r.mu.Unlock()
 			}
 		}
 		for k := 0; k < 3; k++ {
@@ -477,6 +482,7 @@ func runC03(s c03Scen, c *ev.Case) *ev.Violation {
 		c.Logf("  %s", e)
 	}
 	flows := map[string]*c03Flow{} // by uid
+	final := map[string]bool{}     // flows completed and confirmed (retired from flows)
 	byID := func(id uint16) *c03Flow {
 		for _, f := range flows {
 			if f.id == id && f.state != "done" {
@@ -506,6 +512,9 @@ func runC03(s c03Scen, c *ev.Case) *ev.Violation {
 					return ev.Violf("C03.id-zero", "QoS%d PUBLISH %s with packet id 0", e.QoS, e.UID)
 				}
 				f := flows[e.UID]
+				if final[e.UID] {
+					return ev.Violf("C03.redelivery-after-ack", "message %s delivered again although its acknowledgement was confirmed (id %d)", e.UID, e.ID)
+				}
 				if f == nil || f.state == "done" && !f.unsure {
 					if f != nil {
 						return ev.Violf("C03.redelivery-after-ack", "message %s delivered again although its acknowledgement was confirmed (id %d)", e.UID, e.ID)
@@ -637,8 +646,12 @@ func runC03(s c03Scen, c *ev.Case) *ev.Violation {
 					f.state, f.unsure = "recsent", true
 				}
 			case "barrier":
-				for _, g := range flows {
+				for u, g := range flows {
 					g.unsure = false
+					if g.state == "done" {
+						final[u] = true
+						delete(flows, u)
+					}
 				}
 			}
 		}
@@ -646,7 +659,7 @@ func runC03(s c03Scen, c *ev.Case) *ev.Violation {
 	}
 	// at-least-once and queue order
 	for _, u := range emitted {
-		if flows[u] == nil {
+		if flows[u] == nil && !final[u] {
 			return ev.Violf("C03.at-least-once", "message %s (QoS>0, accepted) was never delivered", u)
 		}
 	}
@@ -675,13 +688,18 @@ func runC03(s c03Scen, c *ev.Case) *ev.Violation {
 // TestC03IdWrap aims at the 65535 -> 1 wrap of the packet identifier space: a warm-up drives the id
 // counter to the boundary, then messages are left unacknowledged across a cut and new ones follow.
 func TestC03IdWrap(t *testing.T) {
-	if i, _ := ev.Shard(); ev.Tier() == "quick" || i >= 4 {
-		t.Skip("65534 round trips per case: thorough tier only, on four shards")
+	if i, _ := ev.Shard(); i >= 4 {
+		t.Skip("65534 round trips per case (2-3 s): on four shards only")
 	}
 	ev.RunN(t, "C03", 0.02, func(t *rapid.T) c03Scen {
 		// max_inflight 1: exactly one packet id per message, so after Warm messages the id counter stands at Warm
-		s := c03Scen{V: rapid.SampledFrom([]int{4, 5}).Draw(t, "v"), MI: 1, SQ: 1, Warm: 65534 + rapid.IntRange(-2, 0).Draw(t, "warm")}
-		s.Ops = append(s.Ops, c03Op{Op: "pub", QoS: 1}, c03Op{Op: "cut"})
+		s := c03Scen{V: rapid.SampledFrom([]int{4, 5}).Draw(t, "v"), MI: 1, SQ: 1, Warm: rapid.SampledFrom([]int{65534, 65534, 65533, 65532}).Draw(t, "warm")}
+		// one or two messages left unacknowledged across the cut: ids Warm+1 (and Warm+2, past the wrap when Warm+1 = 65535)
+		s.Ops = append(s.Ops, c03Op{Op: "pub", QoS: 1})
+		if rapid.Bool().Draw(t, "second") {
+			s.Ops = append(s.Ops, c03Op{Op: "pub", QoS: 1})
+		}
+		s.Ops = append(s.Ops, c03Op{Op: "cut"})
 		k := rapid.IntRange(2, 4).Draw(t, "after")
 		for i := 0; i < k; i++ {
 			s.Ops = append(s.Ops, c03Op{Op: "ack", K: 0}, c03Op{Op: "pub", QoS: 1})
